@@ -856,6 +856,9 @@ func shortAll(xs []string, n int) []string {
 // inScope: both racing accesses are in the parser, or in the construction of
 // runtime components.
 func inScope(r racefilter.Report) bool {
+	if mapPair(r) {
+		return true
+	}
 	if !r.In(racePkgs, racefilter.SkipStdlib) {
 		return false
 	}
@@ -866,6 +869,33 @@ func inScope(r racefilter.Report) bool {
 		}
 	}
 	return true
+}
+
+// mapPair: both accesses are Go map operations (top frame runtime.map* / reflect.map*), one of them writes, and
+// both stacks pass through the parser or the interpreter: exactly the pairs on which the Go runtime aborts the
+// process ("fatal error: concurrent map ...") when they overlap - wherever in the interpreter the table lives
+// (e.g. a per-provider cache used by import statements or interpolation).
+func mapPair(r racefilter.Report) bool {
+	write := false
+	for _, a := range r.Access {
+		if len(a.Stack) == 0 {
+			return false
+		}
+		if f := a.Stack[0].Func; !strings.HasPrefix(f, "runtime.map") && !strings.HasPrefix(f, "reflect.map") {
+			return false
+		}
+		ours := false
+		for _, fr := range a.Stack {
+			if p := fr.Pkg(); p == "github.com/krotik/ecal/parser" || p == "github.com/krotik/ecal/interpreter" {
+				ours = true
+			}
+		}
+		if !ours {
+			return false
+		}
+		write = write || strings.Contains(strings.ToLower(a.Op), "write")
+	}
+	return write
 }
 
 func raceFailure(kept []racefilter.Report) *hx.Failure {
@@ -886,7 +916,7 @@ func raceFailure(kept []racefilter.Report) *hx.Failure {
 		}
 	}
 	var sb strings.Builder
-	fmt.Fprintf(&sb, "%d race report(s) with both racing accesses in parser/ or runtime component construction:\n", len(kept))
+	fmt.Fprintf(&sb, "%d race report(s) with both racing accesses in parser/ or runtime component construction, or on a Go map below parser / interpreter frames:\n", len(kept))
 	for _, s := range names {
 		fmt.Fprintf(&sb, "  %4d x %s\n", sigs[s], s)
 	}
